@@ -280,6 +280,12 @@ void run_C18(void) {
             }
         }
   }
+  // a module must still be what it was after tens of thousands of calls through it (warm-up thresholds, statistics)
+  if (!ro_available())
+    for (int oi = 0; oi < N_CAT_OPS; oi++) {
+      if (!(OPS[oi].flags & (OPF_FFT64 | OPF_NTT120 | OPF_TABLE))) continue;
+      for (unsigned v = 0; v < (th ? 4u : 1u); v++) ops_history_case("", OPS[oi].name, v & 1 ? 64 : 16, v & 2 ? (v & 1 ? 64 : 16) : 2, DISP_NATIVE, v, "long_history_calls");
+    }
   for (size_t ni = 0; ni < N_ALL_N; ni++) {
     const uint64_t N = ALL_N[ni];
     const unsigned batches = th ? (N <= 1024 ? 200 : (N <= 8192 ? 40 : 12)) : (N <= 1024 ? 6 : 2);
